@@ -66,6 +66,11 @@ pub fn serve<F: FnMut(&[&str]) -> String>(mut f: F) {
         if toks.is_empty() {
             continue;
         }
+        // the trace of back-end calls (hook verif_trace) is thread-local and stays enabled once a request has
+        // switched it on; empty it so that its invocation bound counts the calls of ONE request only
+        if brotli::enc::encode::verif_trace::enabled() {
+            let _ = brotli::enc::encode::verif_trace::take();
+        }
         let ans = f(&toks);
         writeln!(out, "{}", ans).unwrap();
     }
